@@ -20,6 +20,9 @@ type rec struct {
 	evals   int64
 	nontriv int64 // evaluations whose exact result is not representable (overflow / div by zero expected)
 	samples []any
+	// deadline reports that the part's time budget is used up (checked once per x); cut records that it happened
+	deadline func() bool
+	cut      bool
 }
 
 func (r *rec) fail(op, typ, kind string, detail string, replay any) {
@@ -33,6 +36,17 @@ func (r *rec) fail(op, typ, kind string, detail string, replay any) {
 
 // errPanicked marks a call that panicked instead of returning (value, error).
 var errPanicked = errors.New("the call panicked")
+
+// guardedDiv is the allocation-free form of guarded for the hot 16-bit loops.
+func guardedDiv[T safemath.Integer](r *rec, typ string, x, y T) (v T, err error) {
+	defer func() {
+		if p := recover(); p != nil {
+			r.fail("SafeDiv", typ, "panic", fmt.Sprintf("SafeDiv[%s](%v,%v) panicked instead of returning a result or an error: %v", typ, x, y, p), replayCase{Op: "SafeDiv", Type: typ, X: fmt.Sprint(x), Y: fmt.Sprint(y)})
+			err = errPanicked
+		}
+	}()
+	return safemath.SafeDiv(x, y)
+}
 
 // guarded runs one library call; a panic is reported once per (operation, type) and turned into errPanicked.
 func guarded[T any](r *rec, op, typ string, args []any, f func() (T, error)) (v T, err error) {
@@ -99,13 +113,16 @@ func smallType[T safemath.Integer](r *rec, typ string, bits int, signed bool, xs
 			judgeSmall(r, "SafeSub", typ, x, y, x-y, true, false, g, err, lo, hi)
 			g, err = safemath.SafeMul(tx, ty)
 			judgeSmall(r, "SafeMul", typ, x, y, x*y, true, false, g, err, lo, hi)
+			g, err = guardedDiv(r, typ, tx, ty)
 			if y == 0 {
-				g, err = guarded(r, "SafeDiv", typ, []any{x, y}, func() (T, error) { return safemath.SafeDiv(tx, ty) })
 				judgeSmall(r, "SafeDiv", typ, x, y, 0, false, true, g, err, lo, hi)
 			} else {
-				g, err = guarded(r, "SafeDiv", typ, []any{x, y}, func() (T, error) { return safemath.SafeDiv(tx, ty) })
 				judgeSmall(r, "SafeDiv", typ, x, y, x/y, true, false, g, err, lo, hi)
 			}
+		}
+		if r.deadline != nil && r.deadline() {
+			r.cut = true
+			return
 		}
 		if shifts {
 			for s := 0; s < 256; s++ {
@@ -304,7 +321,7 @@ func special64(r *rec, rich bool, shard, nshards int) {
 }
 
 func run(c *cli.Ctx, what string) (pr *cli.PartResult) {
-	r := &rec{viol: map[string]*cli.Violation{}}
+	r := &rec{viol: map[string]*cli.Violation{}, deadline: c.Expired}
 	defer func() {
 		if p := recover(); p != nil { // a panic of an unguarded operation ends this shard's enumeration, but is reported
 			r.fail("safemath", what, "panic", fmt.Sprintf("an operation panicked instead of returning a result or an error: %v\n%s", p, debug.Stack()), replayCase{Op: "safemath", Type: what})
@@ -361,6 +378,10 @@ func run(c *cli.Ctx, what string) (pr *cli.PartResult) {
 		notes = append(notes, fmt.Sprintf("32/64-bit: complete cross product of the boundary alphabet (%d / %d / %d / %d values), all shifts 0..255; MulDiv triples over %d values", len(boundary(32, true, true)), len(boundary(32, false, true)), len(boundary(64, true, true)), len(boundary(64, false, true)), len(boundary(64, false, rich))))
 		exhaustive = false
 	}
+	if r.cut {
+		exhaustive = false
+		notes = append(notes, "the time budget of this work item ran out: the enumeration was cut (evaluations counts what was covered)")
+	}
 	pr = &cli.PartResult{Engine: "I", Evaluations: r.evals, Distinct: r.nontriv, States: 0, Exhaustive: exhaustive, Notes: notes}
 	pr.Samples = []any{fmt.Sprintf("%s shard %d/%d: %d evaluations, %d of them with a non-representable exact result", what, c.Shard, c.NShards, r.evals, r.nontriv),
 		"SafeMul[int8](-1,-128) exact=128 -> must be overflow", "SafeLeftShift[uint8](3,7) exact=384 -> must be overflow", "Safe64MulDiv(2^63,2,2^64-1)"}
@@ -407,7 +428,7 @@ func main() {
 		{Name: "wide", Run: func(c *cli.Ctx) *cli.PartResult { return run(c, "wide") }, Replay: replay, Shards: 16, ShardsQuick: 8},
 	}
 	cli.Main(&cli.Property{
-		ID: "C19", Level: "exploration", Parts: parts, QuickSecs: 60, ThoroughSecs: 900,
+		ID: "C19", Level: "exploration", Parts: parts, QuickSecs: 60, ThoroughSecs: 1800,
 		Rule:        "complete enumeration of operand spaces against exact arithmetic (int64 for <=16 bit, math/big above): all pairs of the 8-bit types (thorough: of the 16-bit types too), all (value, shift 0..255) pairs, and the complete cross product of a boundary alphabet (0, +-1..3, min/max +-3, +-2^k and +-2^k+-1 for every k, sqrt(max)+-1, max/a+-1) for 32/64-bit types, SafeMulUint64, SafeMulInt64 and (triples) Safe64MulDiv; distinct_nontrivial = evaluations whose exact result is not representable (an error is required)",
 		Assumptions: []string{"math/big and int64 arithmetic are the reference"},
 		NotReached:  []string{"the full 2^64 x 2^64 operand space (boundary alphabet only)", "named integer types other than the eight basic ones"},
